@@ -21,10 +21,22 @@ DevNext == steps < MaxSteps /\
   \/ \E r \in 1..nreq : PeerPuback(r) \/ PeerPubrec(r) \/ PeerPubcomp(r) \/ PeerSuback(r, <<1>>)
 DevSpec == Init /\ [][DevNext]_vars
 
+(* many requests of one kind outstanding (the ack queue grows beyond its initial 16 entries, also after its
+   head has moved): long random behaviours generated with TLC -simulate                                   *)
+ManyNext == steps < MaxSteps /\
+  \/ (nreq < MaxReq /\ (AppPublish(1) \/ AppPublish(1) \/ AppPublish(2)))
+  \/ \E r \in 1..nreq : ((\E i \in 1..Len(q1) : q1[i].r = r) /\ PeerPuback(r))
+  \/ (q1 # <<>> /\ PeerPuback(Head(q1).r))
+  \/ \E r \in 1..nreq : ((\E i \in 1..Len(q2) : q2[i].r = r /\ q2[i].st = "none") /\ PeerPubrec(r))
+  \/ \E r \in 1..nreq : ((\E i \in 1..Len(q2) : q2[i].r = r /\ q2[i].st = "PUBREC") /\ PeerPubcomp(r))
+ManyFinish == steps = MaxSteps /\ steps' = steps + 1 /\ UNCHANGED <<nreq, q1, q2, sb, us, ping, tree, p2in, half, wire, done, disp, last, prev, hist>>
+ManySpec == Init /\ [][ManyNext \/ ManyFinish]_vars
+EmitMany == steps <= MaxSteps \/ PrintT(ToJson(hist))
+
 (* C20 dispatch: subscribe requests with overlapping filters, rejected filters, unsubscribe,
    inbound PUBLISH at QoS 0..2 with duplicates, matching and non-matching topics             *)
 DispNext == steps < MaxSteps /\
-  \/ (nreq < MaxReq /\ \E fs \in {<<AH>>, <<AH, AP>>, <<AB>>, <<SH, A>>} : AppSubscribe(fs))
+  \/ (nreq < MaxReq /\ \E fs \in {<<AH>>, <<AH, AP>>, <<AB>>, <<SH, A>>, <<A, AH>>, <<A>>} : AppSubscribe(fs))
   \/ (nreq < MaxReq /\ \E fs \in {<<AH>>, <<AB, AP>>} : AppUnsubscribe(fs))
   \/ \E r \in 1..nreq, cs \in {<<0>>, <<128>>, <<0, 1>>, <<128, 2>>} :
         ((\E i \in 1..Len(sb) : sb[i].r = r /\ Len(sb[i].fs) = Len(cs)) /\ PeerSuback(r, cs))
